@@ -183,7 +183,19 @@ def permute(ob, d, dims, ttm):
     labels = mark(x)
     ob.describe('dims', list(dims))
     ob.replay_args = {'x': 'x'}
-    r = ex.call(ex.module('torchtt._extras').env['permute'], [x, list(dims)])
+    eps = z3.Real('eps')
+    ex.assume(eps > 0)
+    ex.assume(eps < 1)
+    r = ex.call(ex.module('torchtt._extras').env['permute'], [x, list(dims), SymScalar(eps, 'float', 'float')])
+    # every truncation threshold is RELATIVE to the norm of the matrix being truncated:  threshold^2 * d^3 == eps^2 * ||S||^2
+    from ttvc import gauge as _g
+    for j, e_ in enumerate([e for e in ex.events if e[0] == 'rank_chop']):
+        rec = e_[4]
+        if rec is None or rec.get('chop_eps') is None:
+            ob.fail('swap%d.threshold_relative_to_local_norm' % j, 'ghost', 'rank_chop is not applied to the singular values of an SVD with a scalar threshold')
+            continue
+        b = _g.base_record(rec)
+        ob.prove('swap%d.threshold_relative_to_local_norm' % j, rec['chop_eps'] * rec['chop_eps'] * (d ** 3) == eps * eps * b['fro2'], 'ghost')
     ob.wf(r)
     f = fields(ob, r)
     all_eq(ob, 'N', f['N'], [x.N_[k] for k in dims])
